@@ -663,6 +663,54 @@ func pmCase(p int, sb bool, ch string, data []byte) {
 	run.Case("plugin-message", fmt.Sprintf("pm %d %s %s %s", p, b01(sb), hx.HexS(ch), hx.Hex(data)), encode(m, p, dir, 0x17))
 }
 
+// pmSeq encodes ONE *plugin.Message object for every step in turn (a packet broadcast to
+// connections of different versions): each encoding must be what a fresh packet would give.
+func pmSeq(ch string, data []byte, steps [][2]int) {
+	m := &plugin.Message{Channel: ch, Data: data}
+	var toks, outs []string
+	for _, st := range steps {
+		dir := proto.ClientBound
+		if st[1] == 1 {
+			dir = proto.ServerBound
+		}
+		toks = append(toks, fmt.Sprintf("%d:%d", st[0], st[1]))
+		outs = append(outs, encode(m, st[0], dir, 0x17))
+	}
+	run.Case("plugin-message-history", fmt.Sprintf("pmseq %s %s %s", hx.HexS(ch), hx.Hex(data), strings.Join(toks, ",")),
+		strings.Join(outs, ";"))
+}
+
+func doPluginHistory() {
+	legacy := []string{"FML|HS", "BungeeCord", "MC|Brand", "REGISTER", "UNREGISTER", "WECUI", "my-chan", "FML", "wdl|init", "legacy"}
+	// regression: modern first, then older connections (and back)
+	for _, ch := range legacy {
+		pmSeq(ch, []byte{1, 2}, [][2]int{{767, 0}, {340, 0}, {4, 0}})
+		pmSeq(ch, nil, [][2]int{{4, 1}, {340, 1}, {393, 1}, {47, 1}, {776, 1}, {5, 1}})
+	}
+	old := []int{4, 5, 47, 107, 210, 335, 340}
+	n := run.Scale(120, 1200)
+	for i := 0; i < n; i++ {
+		ch := hx.Pick(rng, legacy)
+		if rng.Chance(1, 3) {
+			ch = genChannel()
+		}
+		k := 2 + rng.Intn(4)
+		var steps [][2]int
+		sb := rng.Intn(2)
+		for j := 0; j < k; j++ {
+			p := hx.Pick(rng, allProtos)
+			switch rng.Intn(3) {
+			case 0:
+				p = hx.Pick(rng, old)
+			case 1:
+				p = hx.Pick(rng, protosFrom(393))
+			}
+			steps = append(steps, [2]int{p, sb})
+		}
+		pmSeq(ch, genBytes(40), steps)
+	}
+}
+
 func doPluginMessage() {
 	// regression: the pre-fix identifier expression kept `]` and dropped `-`
 	pmCase(767, false, "a]", nil)
@@ -889,6 +937,7 @@ func main() {
 	allProtos = protocols()
 	doPlayerInfo()
 	doPluginMessage()
+	doPluginHistory()
 	doHandshake()
 	doStatus()
 	doLoginStart()
